@@ -288,6 +288,7 @@ type YW struct {
 	Sub   *SimSub
 	Sy    *hsync.Syncer[*H]
 	Space time.Duration
+	Flav  string // datastore flavour handed to the Store: "plain" or "ctx"
 	Opts  []hsync.Option
 	// Halt freezes block production at this height when non-zero.
 	Halt uint64
@@ -317,7 +318,7 @@ func (w *YW) NetHead() uint64 {
 func (w *YW) OpenStore(p store.Parameters) error {
 	var err error
 	_, fin := w.S.Do("open-store", opBudget, func() {
-		w.St, err = store.NewStore[*H](w.Disk, store.WithParams(p))
+		w.St, err = store.NewStore[*H](w.Disk.Flavour(w.Flav), store.WithParams(p))
 		if err == nil {
 			err = w.St.Start(context.Background())
 		}
@@ -428,6 +429,29 @@ func (w *YW) checkStoreIsHonestChain(why string, needContiguous bool) {
 			}
 		}
 	}
+}
+
+// waitSyncIdle lets virtual time pass until the Syncer's sync loop is not in the
+// middle of a sync (State().Start is not after State().End) and the Store has
+// flushed what it was handed, or the budget runs out. It asserts nothing.
+func (w *YW) waitSyncIdle(budget time.Duration) {
+	s := w.S
+	deadline := time.Now().Add(budget)
+	for time.Now().Before(deadline) && s.Aborted == "" {
+		s.Quiesce(time.Second)
+		st := w.Sy.State()
+		if st.ID == 0 || !st.Start.After(st.End) {
+			break
+		}
+		s.Sleep(5 * time.Second)
+	}
+	t := s.Go("store-sync", func() {
+		c, cancel := context.WithTimeout(context.Background(), budget)
+		defer cancel()
+		_ = w.St.Sync(c)
+	})
+	s.Settle(budget+time.Minute, t)
+	s.Quiesce(time.Second)
 }
 
 func (w *YW) teardown() {
